@@ -39,7 +39,7 @@ import (
 
 const (
 	memLimit      = 4 << 30
-	smallLimit    = 512 << 20
+	smallLimit    = 192 << 20
 	allocSlack    = 16 << 20
 	allocPerByte  = 1024
 	watchdogCPU   = 60 * time.Second
@@ -49,7 +49,7 @@ const (
 // probeMarker is published instead of a case index while the length fields of a seed are probed.
 const probeMarker = 0x7ffffffe
 
-const maxDeathsPerUnit = 48
+const maxDeathsPerUnit = 8
 
 func cpuTime() time.Duration {
 	var ru syscall.Rusage
@@ -428,6 +428,7 @@ type executor struct {
 	violated  bool // the running case has produced a violation
 	out       *bufio.Writer
 	sigSeen   map[string]int
+	shape     string // shape of the attacked length field of the running case ("" if none)
 	towerKind string
 	towerDepth int
 }
@@ -539,6 +540,7 @@ func snapshotProfile() map[[32]uintptr]profEntry {
 // runCase executes one input against one target and applies the oracle of the property.
 // It returns true if the case produced an allocation failure (for the memo).
 func (e *executor) runCase(t *dtarget, in []byte, desc func() string) (allocFail bool) {
+	e.shape = ""
 	return e.runCaseKey(t, in, "", desc)
 }
 
@@ -594,7 +596,7 @@ func (e *executor) runCaseKey(t *dtarget, in []byte, key string, desc func() str
 				}
 			}
 			r.Outcomes["alloc-over-bound"]++
-			e.violate("decode/"+t.class()+"/alloc/"+top, fmt.Sprintf("allocated %d bytes for an input of %d bytes (bound %d); input %x (%s)", alloc, len(in), bound, clipBytes(in), desc()), rp())
+			e.violate("decode/"+t.class()+"/alloc/"+top+shapeSuffix(e.shape), fmt.Sprintf("allocated %d bytes for an input of %d bytes (bound %d); input %x (%s)", alloc, len(in), bound, clipBytes(in), desc()), rp())
 			return true
 		}
 		return false
@@ -618,6 +620,13 @@ func (e *executor) runCaseKey(t *dtarget, in []byte, key string, desc func() str
 		e.violate(sig, detail+" ("+desc()+")", rp())
 	}
 	return false
+}
+
+func shapeSuffix(shape string) string {
+	if shape == "" {
+		return "/outside-known-length-fields"
+	}
+	return "/" + shape
 }
 
 func clipBytes(b []byte) []byte {
@@ -698,9 +707,9 @@ func (e *executor) memoAdd(key string) {
 }
 
 // setAddressSpace sets the soft address-space limit of the executor: the full 4 GiB for nesting
-// towers (the goroutine stack grows by doubling), 512 MiB above the current size for everything else, so that an
+// towers (the goroutine stack grows by doubling), 192 MiB above the current size for everything else, so that an
 // absurd allocation fails at once instead of page-faulting through gigabytes. Any allocation that
-// can fail under 512 MiB is far beyond the C02 bound (16 MiB + 1 KiB per input byte, inputs of
+// can fail under 192 MiB is far beyond the C02 bound (16 MiB + 1 KiB per input byte, inputs of
 // these units are shorter than 64 KiB).
 func setAddressSpace(kind string) {
 	// the limit counts address space, including what the Go runtime has reserved at start-up:
@@ -739,7 +748,7 @@ func (e *executor) runUnit(ui int, skip map[int]bool) {
 				e.res.NotJudged++
 				return
 			}
-			key := memoKey(t.class(), s.Sites, mu)
+			key, shape := memoKey(t.class(), s.Sites, s.Bytes, mu)
 			if e.memoHit(key) {
 				e.res.Skipped++
 				e.res.NotJudged++
@@ -747,7 +756,8 @@ func (e *executor) runUnit(ui int, skip map[int]bool) {
 			}
 			in := mu.apply(s.Bytes, e.scratch)
 			e.scratch = in[:0]
-			e.publish(ui, m, key)
+			e.publish(ui, m, key+"#"+shape)
+			e.shape = shape
 			if e.runCaseKey(t, in, key, func() string { return s.Desc + " " + mu.String() }) {
 				e.memoAdd(key)
 				if key == "" {
@@ -789,7 +799,7 @@ func (e *executor) runPairs(ui int, t *dtarget, s seed, skip map[int]bool) {
 	})
 	keys := make([]string, len(ms))
 	for i, mu := range ms {
-		keys[i] = memoKey(t.class(), s.Sites, mu)
+		keys[i], _ = memoKey(t.class(), s.Sites, s.Bytes, mu)
 	}
 	buf := make([]byte, 0, len(s.Bytes))
 	m := -1
@@ -1253,6 +1263,25 @@ func superviseShard(prop string, s evid.ShardInfo, w *evid.Run, p *plan, assign 
 			mine = append(mine, i)
 		}
 	}
+	// order of execution inside a shard: default seeds first, then the small complete spaces, then
+	// the other seeds (in seed order per entry point), then pairs
+	prio := func(u unit) int {
+		switch {
+		case u.Kind == "mut" && u.Seed == 0:
+			return 0
+		case u.Kind == "mut":
+			return 2
+		case u.Kind == "pair":
+			return 3
+		}
+		return 1
+	}
+	sort.SliceStable(mine, func(a, b int) bool { return prio(p.units[mine[a]]) < prio(p.units[mine[b]]) })
+	failBudget := 96
+	if p.thorough {
+		failBudget = 1024
+	}
+	fails := 0
 	dir, err := os.MkdirTemp(evid.Scratch(), "codec-")
 	if err != nil {
 		evid.EngineError(prop, "scratch: %v", err)
@@ -1279,6 +1308,24 @@ func superviseShard(prop string, s evid.ShardInfo, w *evid.Run, p *plan, assign 
 	deaths, unitDeaths := 0, 0
 	var samples int
 	for start < len(mine) {
+		if fails > failBudget {
+			// every further failing input costs a process; the remaining units are reported as not run
+			var cases int64
+			kinds := map[string]int{}
+			for _, u := range myUnits[start:] {
+				kinds[u.Kind]++
+				switch u.Kind {
+				case "mut":
+					cases += int64(countSingles(p.seedAt(u.Target, u.Seed).Bytes))
+				case "exh":
+					cases += exhCount(p.L)
+				}
+			}
+			w.NotJudged(cases)
+			w.Capped(fmt.Sprintf("shard %d stopped after %d inputs that killed the decoding process or allocated beyond the bound (budget %d per shard): %d of its %d units not run (%v; at least %d inputs)",
+				s.Index, fails, failBudget, len(mine)-start, len(mine), kinds, cases))
+			break
+		}
 		binary.LittleEndian.PutUint32(pub[0:], 0xffffffff)
 		cmd := exec.Command(os.Args[0], os.Args[1:]...)
 		cmd.Env = append(os.Environ(), "VERIF_CODEC_EXEC=1", "VERIF_CODEC_UNITS="+unitsPath,
@@ -1301,6 +1348,9 @@ func superviseShard(prop string, s evid.ShardInfo, w *evid.Run, p *plan, assign 
 					evid.EngineError(prop, "executor reported a violation in unit %d, expected %d", vm.Unit, start)
 				}
 				w.Violate(vm.Sig, vm.Detail, vm.Replay)
+				if !judged[vm.M] && strings.Contains(vm.Sig, "/alloc/") {
+					fails++
+				}
 				if !judged[vm.M] {
 					judged[vm.M] = true
 					w.Eval("")
@@ -1338,15 +1388,19 @@ func superviseShard(prop string, s evid.ShardInfo, w *evid.Run, p *plan, assign 
 		ui := int(binary.LittleEndian.Uint32(pub[0:]))
 		m := int(binary.LittleEndian.Uint32(pub[4:]))
 		kl := int(binary.LittleEndian.Uint32(pub[8:]))
-		key := ""
+		key, shape := "", ""
 		if kl > 0 && kl <= 400 {
 			key = string(pub[12 : 12+kl])
+			if i := strings.LastIndex(key, "#"); i >= 0 {
+				key, shape = key[:i], key[i+1:]
+			}
 		}
 		stderr := hw.b.String()
 		if uint32(ui) == 0xffffffff || ui != start {
 			evid.EngineError(prop, "executor died outside a case (%v), published unit %d, expected %d: %s", werr, ui, start, firstLines(stderr, 8))
 		}
 		deaths++
+		fails++
 		unitDeaths++
 		kind, top := deathClass(stderr, werr.Error())
 		if m == probeMarker {
@@ -1370,6 +1424,9 @@ func superviseShard(prop string, s evid.ShardInfo, w *evid.Run, p *plan, assign 
 		t := p.targets[u.Target]
 		in, desc := reconstructCase(p, u, m)
 		if prop == "C02" {
+			if kind == "alloc" {
+				top += shapeSuffix(shape)
+			}
 			w.Violate("decode/"+t.class()+"/"+kind+"/"+top, fmt.Sprintf("the decoding process died (%v) on input %x (%s)\n%s", werr, clipBytes(in), desc, firstLines(stderr, 14)),
 				caseReplay{Target: t.Name, Kind: t.Kind, Hex: hex.EncodeToString(clipReplay(in)), Desc: desc})
 			outcomes["process-death:"+kind]++
